@@ -342,8 +342,12 @@ class Parser:
         self.skip_modifiers()
         if self.is_type_start() and self.peek(1)[0] == "id":
             ty = self.base_type()
+            # naga writes the dimensions of a module-scope array before the name (`static uint[2] x = ...`);
+            # read as the array type it evidently stands for (whether DXC/FXC accept this declarator form is an
+            # open question recorded in DESIGN.md)
+            pre = self.array_dims() if self.at("[") else []
             name = self.ident()
-            ty = self.with_dims(ty, self.array_dims())
+            ty = self.with_dims(ty, pre + self.array_dims())
             init = None
             if self.at("="):
                 self.next()
@@ -596,8 +600,12 @@ class Parser:
                 self.next()
                 const = True
             ty = self.base_type()
+            # naga writes the dimensions of a module-scope array before the name (`static uint[2] x = ...`);
+            # read as the array type it evidently stands for (whether DXC/FXC accept this declarator form is an
+            # open question recorded in DESIGN.md)
+            pre = self.array_dims() if self.at("[") else []
             name = self.ident()
-            ty = self.with_dims(ty, self.array_dims())
+            ty = self.with_dims(ty, pre + self.array_dims())
             init = None
             if self.at("="):
                 self.next()
